@@ -43,7 +43,8 @@ TECHNIQUE = ("property-based testing (Hypothesis): model-based stateful "
              "RuleBasedStateMachine)")
 RULE = ("a case is a history: class (plain | external interference), seeds, "
         "and a list of op descriptors {randomize, init_matrix, pathloss "
-        "(matrix|ones|none), noise_var, post_filter (square|rect|none), read "
+        "(matrix|ones|none), noise_var, post_filter (square | square with real "
+        "and complex receivers | rect | none), read "
         "(subset of views, k, l), corrupt (data|concat)}; the first op "
         "initialises the layout (K 1..4, unequal antennas 1..4, 1..2 external "
         "sources).  Non-trivial = the history reads a path-loss dependent "
